@@ -126,9 +126,76 @@ func opsLine(ops []operation) string {
 
 // parseObjects calls ParseObject until io.EOF or an error.
 func parseObjects(in []byte) outcome {
-	p := core.NewParser(bytes.NewReader(in))
+	return parseObjectsFrom(bytes.NewReader(in), len(in)+2)
+}
+
+// chunkReader is an io.Reader over data that hands out the bytes in pieces of
+// the scheduled sizes (cyclically), never more than asked for and never zero:
+// a legal reader whose reads are short. With eofData the last piece comes
+// together with io.EOF, which the io.Reader contract also allows.
+type chunkReader struct {
+	data    []byte
+	off     int
+	sched   []int
+	i       int
+	eofData bool
+}
+
+func (c *chunkReader) Read(p []byte) (int, error) {
+	if len(p) == 0 {
+		return 0, nil
+	}
+	if c.off >= len(c.data) {
+		return 0, io.EOF
+	}
+	n := len(p)
+	if len(c.sched) > 0 {
+		n = c.sched[c.i%len(c.sched)]
+		c.i++
+	}
+	if n < 1 {
+		n = 1
+	}
+	if n > len(p) {
+		n = len(p)
+	}
+	if n > len(c.data)-c.off {
+		n = len(c.data) - c.off
+	}
+	copy(p, c.data[c.off:c.off+n])
+	c.off += n
+	if c.eofData && c.off == len(c.data) {
+		return n, io.EOF
+	}
+	return n, nil
+}
+
+// readerSpec describes how the input bytes reach core.NewParser / core.NewLexer:
+// chunks == nil means a bytes.Reader (every read as large as asked for).
+type readerSpec struct {
+	chunks  []int
+	eofData bool
+}
+
+func (s readerSpec) open(in []byte) io.Reader {
+	if s.chunks == nil && !s.eofData {
+		return bytes.NewReader(in)
+	}
+	return &chunkReader{data: in, sched: s.chunks, eofData: s.eofData}
+}
+
+func (s readerSpec) String() string {
+	if s.chunks == nil && !s.eofData {
+		return "full reads"
+	}
+	return fmt.Sprintf("reads of %v bytes (cyclic), data-with-EOF=%v", s.chunks, s.eofData)
+}
+
+// parseObjectsFrom calls ParseObject on one parser over rd until io.EOF or an error.
+func parseObjectsFrom(rd io.Reader, limit int) outcome {
+	p := core.NewParser(rd)
 	var o outcome
-	for i := 0; i < len(in)+2; i++ {
+	for i := 0; i < limit; i++ {
 		obj, err := p.ParseObject()
 		if err == io.EOF {
 			o.end = "eof"
@@ -173,10 +240,14 @@ var tokCode = map[core.TokenType]string{
 
 // lexTokens runs the public lexer to EOF or the first error.
 func lexTokens(in []byte) outcome {
-	l := core.NewLexer(bytes.NewReader(in))
+	return lexTokensFrom(bytes.NewReader(in), len(in)+2)
+}
+
+func lexTokensFrom(rd io.Reader, limit int) outcome {
+	l := core.NewLexer(rd)
 	var parts []string
 	end := ""
-	for i := 0; i < len(in)+2; i++ {
+	for i := 0; i < limit; i++ {
 		t, err := l.NextToken()
 		if err != nil {
 			end = "err"
@@ -198,13 +269,20 @@ func runObj(in []byte) outcome { return guarded(func() outcome { return parseObj
 func runCS(in []byte) outcome  { return guarded(func() outcome { return parseContent(in) }) }
 func runLex(in []byte) outcome { return guarded(func() outcome { return lexTokens(in) }) }
 
+func runObjVia(in []byte, s readerSpec) outcome {
+	return guarded(func() outcome { return parseObjectsFrom(s.open(in), len(in)+2) })
+}
+func runLexVia(in []byte, s readerSpec) outcome {
+	return guarded(func() outcome { return lexTokensFrom(s.open(in), len(in)+2) })
+}
+
 // abnormal records the panic / hang oracles for one call; true if the call was abnormal.
 func abnormal(c *hx.Ctx, o outcome, what string, in []byte) bool {
 	kase := map[string]interface{}{"kind": what, "input": hx.Hex(in)}
-	c.Check("C06/panic", o.panic_ == "", kase, func() string {
+	remember(c, "C06/panic", o.panic_ == "", kase, func() string {
 		return fmt.Sprintf("%s panicked on %q: %s", what, in, o.panic_)
 	})
-	c.Check("C06/hang", !o.hang, kase, func() string {
+	remember(c, "C06/hang", !o.hang, kase, func() string {
 		return fmt.Sprintf("%s did not return within %v on %q", what, watchdog, in)
 	})
 	return o.panic_ != "" || o.hang
